@@ -27,12 +27,31 @@ open StorageModel.C17 StorageModel.C17.Lock
 
 /-! ## Sequential clauses, for all histories -/
 
+/-- **the copy step.**  `persistSnapshot` = io.Copy: the persisted bytes are the concatenation of
+    everything the reader returned, including bytes returned together with io.EOF — so for EVERY
+    reader behaviour (explicit short / empty reads, any chunk size, EOF with the last data or on its
+    own call) and every stream the persisted bytes are the stream. -/
+theorem copy_reassembles {α : Type} (rd : Reader) (data : List α) : copyAll (script rd data) = data :=
+  copyAll_script rd data
+
+/-- hence reopening what was persisted yields the snapshot file, whatever reader delivered it -/
+theorem restore_any_reader (f : Db) (rd : Reader) : restoreVia f rd = some f := restoreVia_eq f rd
+
+/-- not vacuous: a copy loop that tests for EOF before writing loses the final chunk for a reader
+    that returns its last bytes with EOF — a one-read stream is lost entirely, and an empty file is
+    what bbolt turns into a brand-new empty database -/
+example : copyDroppingEofData (script { eofWithData := true, chunk := 9 } [1, 2, 3]) = ([] : List Nat) := by decide
+example : decodeDb (copyDroppingEofData (script { eofWithData := true, chunk := 99 }
+    (encodeDb { content := [(0, 1)], mt := { present := true, sid := some 1, rt := some true } }))) = some {} := by decide
+example : copyDroppingEofData (script { eofWithData := true, chunk := 1 } [1, 2, 3]) = [1, 2] := by decide
+example : copyDroppingEofData (script { eofWithData := false, chunk := 1 } [1, 2, 3]) = [1, 2, 3] := by decide
+
 /-- **restore ∘ snapshot.**  For every start state, every history `h1` leading to the state A at
     which the snapshot is taken, every further history `h2` (transactions, other snapshots into other
-    slots, other restores, timeline requests, …) and either restore route: the database after the
+    slots, other restores, timeline requests, …) and every restore route and reader behaviour: the database after the
     restore is the database at snapshot time with exactly the two markers set (snapshot id = the id
     handed out, resetTimeline = true); in particular the content is A's content. -/
-theorem restore_snapshot (s0 : Sys) (h1 h2 : List Op) (k : Nat) (inTx viaR : Bool) (hk : KeepsSlot k h2) :
+theorem restore_snapshot (s0 : Sys) (h1 h2 : List Op) (k : Nat) (inTx : Bool) (viaR : Reader) (hk : KeepsSlot k h2) :
     let sA := (run s0 h1).1
     (run s0 (h1 ++ [.snap k inTx] ++ h2 ++ [.restore k viaR])).1.db = mark sA.nextId sA.db ∧
     (run s0 (h1 ++ [.snap k inTx] ++ h2 ++ [.restore k viaR])).1.db.content = sA.db.content := by
@@ -51,7 +70,7 @@ theorem snapshot_reports_id (s : Sys) (k : Nat) (inTx : Bool) :
     (step s (.snap k inTx)).2 = .snapped s.nextId s.db := rfl
 
 /-- **snapshot id kept.**  After the restore, GetSnapshotId reports the id returned by Snapshot. -/
-theorem snapshot_id_kept (s0 : Sys) (h1 h2 : List Op) (k : Nat) (inTx viaR : Bool) (hk : KeepsSlot k h2) :
+theorem snapshot_id_kept (s0 : Sys) (h1 h2 : List Op) (k : Nat) (inTx : Bool) (viaR : Reader) (hk : KeepsSlot k h2) :
     let sA := (run s0 h1).1
     (step (run s0 (h1 ++ [.snap k inTx] ++ h2 ++ [.restore k viaR])).1 .gsid).2 = .sid (some sA.nextId) := by
   intro sA
@@ -60,7 +79,7 @@ theorem snapshot_id_kept (s0 : Sys) (h1 h2 : List Op) (k : Nat) (inTx viaR : Boo
   simp [mark, sA]
 
 /-- **restore listeners fire**, each registered listener exactly once per restore. -/
-theorem restore_fires_listeners (s : Sys) (k : Nat) (viaR : Bool) (f : Db) (hf : lookup k s.files = some f) :
+theorem restore_fires_listeners (s : Sys) (k : Nat) (viaR : Reader) (f : Db) (hf : lookup k s.files = some f) :
     (step s (.restore k viaR)).1.fired = s.fired + s.listeners ∧
     (step s (.restore k viaR)).2 = .restored (s.fired + s.listeners) f := by
   simp [step, hf]
@@ -93,7 +112,7 @@ theorem timeline_once (s : Sys) (hrt : s.db.mt.rt = some true) (m : Mode) :
   simp [step, getTimeline, r1, hf, r2]
 
 /-- the two together: after `A; snapshot; …; restore` the reset marker is set, hence `timeline_once` applies -/
-theorem restore_then_timeline_fresh (s0 : Sys) (h1 h2 : List Op) (k : Nat) (inTx viaR : Bool) (hk : KeepsSlot k h2)
+theorem restore_then_timeline_fresh (s0 : Sys) (h1 h2 : List Op) (k : Nat) (inTx : Bool) (viaR : Reader) (hk : KeepsSlot k h2)
     (m : Mode) :
     let s := (run s0 (h1 ++ [.snap k inTx] ++ h2 ++ [.restore k viaR])).1
     (step s (.gtl m true)).2 = .tl (some (s.idf + 1)) 1 := by
@@ -103,7 +122,7 @@ theorem restore_then_timeline_fresh (s0 : Sys) (h1 h2 : List Op) (k : Nat) (inTx
 
 /-- **stream route.**  StreamToWriter + RestoreFromReader reproduce the database exactly (content
     and meta; no markers are written on this route). -/
-theorem stream_restore_exact (s0 : Sys) (h1 h2 : List Op) (k : Nat) (viaR : Bool) (hk : KeepsSlot k h2) :
+theorem stream_restore_exact (s0 : Sys) (h1 h2 : List Op) (k : Nat) (viaR : Reader) (hk : KeepsSlot k h2) :
     (run s0 (h1 ++ [.stream k] ++ h2 ++ [.restore k viaR])).1.db = (run s0 h1).1.db := by
   simp only [run_append, List.append_assoc]
   have hfile : lookup k (run (run (run s0 h1).1 [.stream k]).1 h2).1.files = some (run s0 h1).1.db := by
